@@ -2,11 +2,12 @@
    map to the OCaml types; Z, N, positive, nat stay the extracted Coq datatypes.  No Extract Constant. *)
 From Coq Require Extraction ExtrOcamlBasic.
 From Sonic Require Import Base.Prelude Gen.Consts Gen.Preds Gen.BipBuffer Gen.Mirrored Gen.Slot.
-From Sonic Require Import Model.BipMem Spec.ByteQueue Model.MirrorMem Spec.Ring.
+From Sonic Require Import Model.BipMem Spec.ByteQueue Model.MirrorMem Spec.Ring Model.ByteBuffer Spec.ThreeFifo.
 Extraction Language OCaml.
 Extraction "model.ml"
   BipMem.binit BipMem.bstep BipMem.bobserve BipMem.babs
   ByteQueue.qinit ByteQueue.qstep ByteQueue.qcheck
   MirrorMem.minit MirrorMem.mstep MirrorMem.mobserve MirrorMem.mabs Mirrored.MirroredBuffer_new
   Ring.rinit Ring.rstep Ring.size_ok
+  ByteBuffer.bb_init ByteBuffer.bbstep ThreeFifo.tf_init ThreeFifo.tfcheck ThreeFifo.observe
   Z.of_nat Z.to_nat Z.add Z.mul Z.sub Z.div Z.modulo Z.eqb Z.ltb Z.leb Z.opp Z.abs Z.compare Z.div_eucl.
